@@ -225,14 +225,23 @@ func stakeCmp(s *MStake) string {
 	return fmt.Sprintf("{owner=%s to=%s tx=%s refund=%d power=%d}", s.Owner, s.To, s.TxHash, s.Refund, s.Power)
 }
 
+// delegCmp: the stakes bonded to a validator are compared as a set (no property orders them)
 func delegCmp(g *MDeleg) string {
 	var sb strings.Builder
 	fmt.Fprintf(&sb, "self=%d total=%d pub=%s stakes=[", g.Self, g.Total, g.PubKey)
+	var ss []string
 	for _, s := range g.Stakes {
-		sb.WriteString(stakeCmp(s))
+		ss = append(ss, stakeCmp(s))
 	}
+	sort.Strings(ss)
+	sb.WriteString(strings.Join(ss, ""))
 	sb.WriteString("]")
 	return sb.String()
+}
+
+// zeroReward: an all-zero reward record says the same as no record
+func zeroReward(r *MReward) bool {
+	return r == nil || (r.Issued.Sign() == 0 && r.Withdrawn.Sign() == 0 && r.Slashed.Sign() == 0 && r.Cumulated.Sign() == 0)
 }
 
 func delegStr(g *MDeleg, withMarks bool) string {
@@ -357,6 +366,8 @@ func diffStates(exp, obs *MState) []Diff {
 	for k := range rk {
 		e, o := exp.Rewards[k], obs.Rewards[k]
 		switch {
+		case zeroReward(e) && zeroReward(o):
+			// nothing recorded either way
 		case e == nil:
 			out = append(out, Diff{Area: "reward", Key: k, Msg: "unexpected reward record " + rewardStr(o)})
 		case o == nil:
